@@ -7,6 +7,8 @@ from __future__ import annotations
 import ast
 import math
 import sys
+
+import numpy as np
 from pathlib import Path
 
 HERE = Path(__file__).resolve().parent
@@ -38,7 +40,7 @@ def sample_args(sp, S, r):
         lo, hi = sp.dom.get(n, DEFAULT_DOM)
         if t == "R":
             v = r.uniform(lo, hi)
-            pyargs.append(v)
+            pyargs.append(np.array([v]) if getattr(sp, "pointwise", False) else v)
             flat.append(v)
         elif t == "Bool":
             v = r.random() < 0.5
@@ -101,8 +103,8 @@ def validate(modules: list[str], n: int, rep: C.Report, only: set | None = None)
                 mock = P.build_mock(cls, S.STRUCTS[sp.struct], sp.env, values, funcoef) if sp.struct else None
                 try:
                     res = P.flatten(f(mock, *pyargs))
-                except (ZeroDivisionError, OverflowError, ValueError, FloatingPointError, TypeError) as ex:
-                    res = ("exc", type(ex).__name__)
+                except (ZeroDivisionError, OverflowError, ValueError, FloatingPointError, TypeError, IndexError) as ex:
+                    res = ("exc", type(ex).__name__ + ": " + str(ex)[:80])
                 jobs.append((sp, mod, flat, res))
     lines = [f"{mod}.{sp.lean} " + " ".join(str(C.f2b(x)) for x in flat) for sp, mod, flat, _ in jobs]
     outs = C.lean_run("GenF", lines) if lines else []
@@ -128,7 +130,7 @@ def validate(modules: list[str], n: int, rep: C.Report, only: set | None = None)
         rep.case(key=(key, tuple(round(x, 6) for x in flat[:6])) if st["n"] <= 50 else None,
                  sample={"fn": key, "args": flat[:8], "python": res, "lean": lv} if st["n"] == 1 else None)
     for key, st in per.items():
-        rep.obligation(f"validate {key}", "translator-validation", st["bad"] == 0,
+        rep.obligation(f"validate {key}", "translator-validation", st["bad"] == 0 and st["exc"] <= 0.5 * st["n"],
                        f"{st['n']} points, {st['bad']} disagreements, {st['exc']} python exceptions, "
                        f"{st['nonfinite']} non-finite")
         rep.count("validation points", st["n"])
